@@ -90,10 +90,10 @@ def _is_zero(env, x):
 
 
 @harness(P,
-         quick=[dict(method=m, k=k, g="2x2", nmax=3, chunk=c, nchunks=nc) for m, ks, nc in (("ptm1", (None, 1, 3), 4), ("ptm2", (1, 3), 6), ("ptm3", (None, 1, 2, 4), 1)) for k in ks for c in range(nc)],
-         thorough=[dict(method=m, k=k, g=g, nmax=2, chunk=c, nchunks=8) for m in ("ptm1", "ptm2", "ptm3") for k in (None, 1, 2, 3) for g in ("2x3", "3x2") for c in range(8)],
+         quick=[dict(method=m, k=k, g="2x2", nmax=3, chunk=c, nchunks=nc) for m, ks, nc in (("ptm1", (None, 1, 3), 4), ("ptm2", (1, 3), 6), ("ptm3", (None, 1, 2, 4), 1)) for k in ks for c in range(nc)] + [dict(method=m, k=2, g="3x2", nmax=2, chunk=0, nchunks=16, prelude=True) for m in ("ptm1", "ptm2")],
+         thorough=[dict(method=m, k=1, g="3x2", nmax=2, chunk=c, nchunks=4, prelude=True) for m in ("ptm1", "ptm2") for c in range(4)] + [dict(method=m, k=k, g=g, nmax=2, chunk=c, nchunks=8) for m in ("ptm1", "ptm2", "ptm3") for k in (None, 1, 2, 3) for g in ("2x3", "3x2") for c in range(8)],
          max_paths=60000, time_budget=560, hard_timeout=900, time_budget_thorough=3300, hard_timeout_thorough=3600, witnesses=3)
-def split(env, method, k, g, nmax, chunk=0, nchunks=1):
+def split(env, method, k, g, nmax, chunk=0, nchunks=1, prelude=False):
     """every partition bin is the input bin or 0; bins are not shared; conservation; requested count; wind sea by the
     wind-sea fraction rule; swells in non-increasing Hs with the dropped ones the smallest."""
     import wavespectra.partition.partition as PP
@@ -108,6 +108,14 @@ def split(env, method, k, g, nmax, chunk=0, nchunks=1):
     E = env.array("E", (nf, nd), lo=0.0)
     wspd = env.real("wspd", lo=0.0, hi=60.0)
     wscut = env.real("wscut", lo=0.01, hi=0.99)
+    if prelude:
+        # an earlier partition call in the same process on ANOTHER frequency grid with the same size, end points
+        # and depth must not influence this one (history independence of the Python side, C18)
+        f0 = f.copy()
+        f0[1:-1] = 0.5 * (f[:-2] + f[1:-1])
+        with fake_watershed(np.ones((nf, nd), dtype=np.int32), False):
+            PP.np_ptm1(np.ones((nf, nd)), np.ones((nf, nd)), f0, d, 12.0, WDIR, DPT, agefac=AGEFAC, wscut=0.3, swells=1, ihmax=100)
+            PP.np_ptm2(np.ones((nf, nd)), np.ones((nf, nd)), f0, d, 12.0, WDIR, DPT, agefac=AGEFAC, wscut=0.3, swells=1, ihmax=100)
     with fake_watershed(lab, env.sym):
         if method == "ptm1":
             out = PP.np_ptm1(E, E, f, d, wspd, WDIR, DPT, agefac=AGEFAC, wscut=wscut, swells=k, ihmax=100)
